@@ -12,13 +12,23 @@ pub fn def() -> PropDef {
         judge,
         run,
         shrink: Shrink::Bytes,
-        render: render_bytes,
+        render: render_seq_or_bytes,
         rule: "every input of the v1 slot / byte / length / UTF-8 universes that satisfies the precondition (first CR followed by at least one byte, or >= 107 CR-free bytes) is parsed through try_from(&[u8]), try_from(&str) (valid UTF-8 only) and HeaderResult::parse (only when the v2 parser's own verdict is terminal, so that the text parser answers); the result must be complete; non-trivial = precondition holds; distinct = hash of the input",
         assumptions: &["which terminal error is reported is property C12's business, not checked here"],
     }
 }
 
-pub fn judge(input: &[u8], acc: &mut Acc) {
+pub fn judge(case: &[u8], acc: &mut Acc) {
+    match decode_seq(case) {
+        Some(parts) => {
+            history_differential(&parts, acc, &parse_entries());
+            judge_history_case(&parts, acc, warm_all, judge_plain)
+        }
+        None => judge_plain(case, acc),
+    }
+}
+
+pub fn judge_plain(input: &[u8], acc: &mut Acc) {
     if !o1::must_be_complete(input) {
         acc.class("window-still-open", "-");
         return;
@@ -67,4 +77,5 @@ pub fn judge(input: &[u8], acc: &mut Acc) {
 pub fn run(run: &Run) {
     let b = v1_bounds(run.tier);
     explore_all(run, &v1_universes(&b));
+    explore_all(run, &seq_universes(run.tier, true, false));
 }
